@@ -4,6 +4,7 @@ import (
 	"fmt"
 	"os"
 	"go/token"
+	"go/types"
 	"strings"
 
 	"gunyucheck/core"
@@ -735,6 +736,17 @@ func ruleControlCommandIsNamespace(w *core.World, r *core.Report) {
 		n := core.ResolveCall(c).Name
 		// the namespace test itself, or (when it is written out in place) the key test it is made of
 		return strings.HasSuffix(n, "syncer.touchesBisyncNamespace") || strings.HasSuffix(n, "syncer.isBisyncNamespaceKey")
+	}
+	// the predicate was folded into its only caller: there the namespace test must decide a branch itself
+	if res := f.Signature.Results(); res.Len() != 1 || !types.Identical(res.At(0).Type().Underlying(), types.Typ[types.Bool]) {
+		decides := false
+		for _, in := range core.Instrs(f) {
+			if iff, ok := in.(*ssa.If); ok && isNs(iff.Cond) {
+				decides = true
+			}
+		}
+		r.Check(decides, "isBisyncControlCommand/namespace-decides", f.Pos(), "the control-command predicate is gone and its caller does not branch on the namespace test in its place")
+		return
 	}
 	bad := ""
 	var pos token.Pos = f.Pos()
